@@ -44,6 +44,12 @@ PIXEL_SPECS = [
      'meta': {}, 'visual': {'color': 'cyan'}},
     {'cls': 'TextPixelRegion', 'center': [6.0, 6.0], 'text': 'hello',
      'meta': {}, 'visual': {'rotation': 30}},
+    # metadata only CRTF writes, with list values holding Quantities
+    {'cls': 'CirclePixelRegion', 'center': [9.5, 12.0], 'radius': 3.0,
+     'meta': {'label': "it's", 'corr': ['I', 'Q'], 'frame': 'LSRK',
+              'range': [{'__quantity__': [1.42, 'GHz']},
+                        {'__quantity__': [1.421, 'GHz']}]},
+     'visual': {'color': 'blue', 'linewidth': 2}},
 ]
 SKY_SPECS = [
     {'cls': 'CircleSkyRegion', 'center': {'frame': 'icrs', 'lon': 30.002,
@@ -61,7 +67,10 @@ SKY_SPECS = [
     {'cls': 'RectangleSkyRegion', 'center': {'frame': 'icrs', 'lon': 30.001,
                                              'lat': 10.001},
      'width': [30.0, 'arcsec'], 'height': [12.0, 'arcsec'],
-     'angle': [70.0, 'deg', 'Quantity'], 'meta': {'text': 'box'}, 'visual': {}},
+     'angle': [70.0, 'deg', 'Quantity'],
+     'meta': {'text': 'box', 'label': 'box', 'corr': ['XX'],
+              'range': [{'__quantity__': [100.0, 'km/s']},
+                        {'__quantity__': [250.0, 'km/s']}]}, 'visual': {}},
     {'cls': 'TextSkyRegion', 'center': {'frame': 'fk5', 'lon': 30.003,
                                         'lat': 10.002}, 'text': 'sky text',
      'meta': {}, 'visual': {'rotation': 30, 'color': 'cyan'}},
